@@ -79,3 +79,16 @@ package val
 //@   nopanic
 //@   fresh
 //@   ensures isStr(result) && result.Str().V == s
+
+//@ func (*Env).Get
+//@   props C02 C07
+//@   requires e != nil
+//@   nopanic
+//@   pure
+
+//@ func (*MaybeVal).GetOrDefault
+//@   props C01 C02 C04 C16
+//@   requires v != nil
+//@   nopanic
+//@   pure
+//@   ensures #value result == ite(v.V != nil, v.V, defVal)
